@@ -16,9 +16,13 @@
       [C01_domain e = true -> in_domain e]) that holds at every point the specification visits
       along an unambiguous line ([C01_domain_along_runs]).
 
-    Both script mechanisms that [Spec.KnownC01] describes were repaired in /repo (1567cbe, df274e8)
-    while this package was built, so the statement below has no [~ Known] hypothesis any more; the
-    predicates stay as classifiers (a repaired mechanism that comes back is a violation).
+    Two script mechanisms that [Spec.KnownC01] describes were repaired in /repo (1567cbe, df274e8)
+    while this package was built; their predicates stay as classifiers (a repaired mechanism that
+    comes back is a violation).  A third one, [KnownC01.greedy_shadow] (the within-word matcher is
+    greedy: a literal that begins the rest of a word shadows the undefined nonterminal expected at
+    the same point), was found while proving the statement for within-word items; it is a
+    hypothesis of the general statement, and [ex_C01_greedy_shadow_witness] shows, inside the
+    model, that the statement fails without it.
 
     [C01_bash_meaning_literal] and [C01_bash_meaning_toplevel] (below) prove the statement about the
     script itself -- [BashSem.run_from Repaired] on [Tables.all_tables Bash (Driver.compile_valid v)]
@@ -52,6 +56,7 @@ Definition C01_bash_meaning_statement : Prop :=
     (forall cm cid, Tables.index_of cm (a_commands a) = Some cid ->
                     Spec.Invocations.spec_candidates (cmd_output benv cid) = candidates en cm) ->
     ambiguous_run en (start (v_expr v)) ws = false ->
+    greedy_shadow (v_expr v) en ws = false ->
     match complete (v_expr v) en ws p with
     | None => exists log, run_from Repaired (d_start (c_main c)) a benv ws p = Ok (mkresult 1 [] log)
     | Some (req, al) =>
@@ -468,6 +473,41 @@ Example ex_C01_mixed_layer_inhabited :
   end.
 Proof. vm_compute. repeat split; reflexivity. Qed.
 Print Assumptions ex_C01_mixed_layer_inhabited.
+
+(** The third mechanism, inside the model: [cmd --x=(abc|<U>) z;] is in the decided domain, the line
+    [--x=abcd] is not ambiguous, the specification expects [z] after it (the nonterminal matches
+    any text), the interpreter of the /repo HEAD script on the tables of the model pipeline
+    returns status 1 (it consumed [abc] and is stuck on [d]); [--x=abc] and [--x=q] are read as the
+    specification says.  [KnownC01.greedy_shadow] flags exactly the first line. *)
+Definition exg_e : expr :=
+  Sequence [Subword (Sequence [Terminal "--x=" None 0 exl_sp;
+                               Alternative [Terminal "abc" None 0 exl_sp; NontermRef "U" 0 exl_sp] exl_sp] exl_sp) 0 exl_sp;
+            Terminal "z" None 0 exl_sp] exl_sp.
+Definition exg_v := mkvalid "cmd" exg_e [] [] [].
+Definition exg_om := [("z", "")]%string.
+Definition exg_os := [(0, [("--x=", ""); ("abc", "")])]%string.
+
+Example ex_C01_greedy_shadow_witness :
+  match compile_valid (fun _ _ => O) 100 exg_v with
+  | Ok c =>
+      match all_tables Bash c exg_om exg_os with
+      | Ok (nd, a) =>
+          valid_literal_order (c_main c) exg_om = true /\ sub_orders_okb c exg_os = true
+          /\ C01_domain exg_e = true /\ C01_env_ok exg_e exs_en = true
+          /\ ambiguous_run exs_en (start exg_e) ["--x=abcd"]%string = false
+          /\ greedy_shadow exg_e exs_en ["--x=abcd"]%string = true
+          /\ complete exg_e exs_en ["--x=abcd"] "" = Some (["z "], ["z "])
+          /\ run_from Repaired (d_start (c_main c)) a exs_benv ["--x=abcd"] "" = Ok (mkresult 1 [] [])
+          /\ greedy_shadow exg_e exs_en ["--x=abc"]%string = false
+          /\ run_from Repaired (d_start (c_main c)) a exs_benv ["--x=abc"] "" = Ok (mkresult 0 ["z "] [])
+          /\ greedy_shadow exg_e exs_en ["--x=q"]%string = false
+          /\ run_from Repaired (d_start (c_main c)) a exs_benv ["--x=q"] "" = Ok (mkresult 0 ["z "] [])
+      | _ => False
+      end
+  | _ => False
+  end.
+Proof. vm_compute. repeat split; reflexivity. Qed.
+Print Assumptions ex_C01_greedy_shadow_witness.
 
 (** Non-vacuity: a grammar with two || levels, a within-word expression and a command is inside
     the domain, and the specification computes the answers one expects from the README. *)
